@@ -2,6 +2,7 @@
 enforces a wall-clock watchdog, kills and replaces the child on expiry, and reports the
 stack the child was in (faulthandler dump) so distinct spins get distinct signatures."""
 import faulthandler
+import gc
 import multiprocessing
 import os
 import re
@@ -65,10 +66,22 @@ def _child_loop(check, env, conn, dumpfile, timeout):
         rss0 = vm_rss_kb()
         try:
             out = check.execute(case, env)
-            out.extra["_hwm_growth_kb"] = max(0, vm_hwm_kb() - rss0)
             res = ("ok", out)
         except BaseException as e:  # includes SystemExit/KeyboardInterrupt raised by the code under test
             res = ("exc", type(e).__name__, traceback.format_exc())
+        # a codec extension object freed with pending data (inflate64.Deflater after a failed write) sets an error in its
+        # destructor; absorb it here so that it cannot surface as a SystemError in harness code
+        for _ in range(3):
+            try:
+                gc.collect()
+                break
+            except BaseException:
+                continue
+        try:
+            if res[0] == "ok":
+                res[1].extra["_hwm_growth_kb"] = max(0, vm_hwm_kb() - rss0)
+        except BaseException:
+            pass
         if dump is not None:
             faulthandler.cancel_dump_traceback_later()
         try:
